@@ -217,7 +217,7 @@ func TestC03(t *testing.T) {
 	for _, format := range layouts.Formats() {
 		format := format
 		t.Run(format, func(t *testing.T) {
-			ev.Check(t, col, ev.Scale(ev.IntEnv("VERIF_C03_QUICK", 1500), 3000), genC03(col, format), propC03)
+			ev.Check(t, col, ev.Scale(ev.IntEnv("VERIF_C03_QUICK", 1500), 15000), genC03(col, format), propC03)
 		})
 	}
 }
